@@ -126,6 +126,45 @@ def _arg(call: ast.Call, pos: int, kw: str):
     return None
 
 
+_UNDECIDED = object()
+
+
+def _ctor_arg(ctx, v: FuncView, call: ast.Call, pos: int, kw: str):
+    """The expression (of the calling function) that reaches constructor parameter `kw` when `call` builds the extract:
+    the argument itself for `Hypergraph(...)`; for a factory (`_new_hypergraph(self._weighted)`) the factory's own
+    constructor call is read and its parameters are replaced by the arguments of `call`."""
+    from .model import ClassInfo, FunctionInfo
+
+    tgt = ctx.prog.resolve_name(v.fi.module, call.func.id) if isinstance(call.func, ast.Name) else None
+    if not isinstance(tgt, FunctionInfo):
+        return _arg(call, pos, kw)
+    gv = ctx.view(tgt)
+    ctors = []
+    for r in walk_no_nested(tgt.node):
+        if isinstance(r, ast.Return) and r.value is not None:
+            e = gv.resolve(r.value) if isinstance(r.value, ast.Name) else r.value
+            if isinstance(e, ast.Call) and isinstance(e.func, ast.Name) and e.func.id in T.CONTAINERS:
+                ctors.append(e)
+            else:
+                return _UNDECIDED
+    if len(ctors) != 1:
+        return _UNDECIDED
+    inner = _arg(ctors[0], pos, kw)
+    if inner is None or isinstance(inner, ast.Constant):
+        return inner
+    pn = [a.arg for a in tgt.params]
+    if isinstance(inner, ast.Name) and inner.id in pn:
+        for k in call.keywords:
+            if k.arg == inner.id:
+                return k.value
+        i = pn.index(inner.id)
+        if i < len(call.args) and not any(isinstance(a, ast.Starred) for a in call.args[: i + 1]):
+            return call.args[i]
+        d = tgt.defaults().get(inner.id)
+        return d if d is not None else _UNDECIDED
+    return _UNDECIDED
+
+
 def _is_getter_of(v: FuncView, e, getter: str, arg: str) -> bool:
     """`e` is `self.<getter>(<arg>)`, possibly through a bound-method alias (`meta_of = self.get_edge_metadata`)"""
     if not isinstance(e, ast.Call) or not e.args:
@@ -196,8 +235,10 @@ def check_extraction(ctx, res: Result, dotted, _seen=None, delegated: bool = Fal
             continue
         # (F) same weightedness
         for c in ctors:
-            w = _arg(c, 1, "weighted")
-            if w is None:
+            w = _ctor_arg(ctx, v, c, 1, "weighted")
+            if w is _UNDECIDED:
+                res.unknown("X-FLAG", f, norm(c), "weighted", "the extract comes from a factory whose constructor call was not recognised", loc(v.fi, c))
+            elif w is None:
                 res.violation("X-FLAG", f, norm(c), "weighted", "the extract is constructed without the source's weightedness (defaults to unweighted)", loc(v.fi, c))
             elif _is_flag(v, w, ()):
                 res.ok("X-FLAG", f, norm(c), "weighted", loc(v.fi, c))
